@@ -54,6 +54,10 @@ func runC13(c *ctx) {
 	}
 	seen := map[string]int{}
 	total, dups, minLen := 0, 0, 1000
+	// windows: every run of 12 decoded bytes of every value; the same run inside two DIFFERENT values means the same random bytes were handed out twice
+	// (a shared, unsynchronised buffer in front of the random source) even when no two values are equal as a whole
+	windows := map[string]string{}
+	overlaps := 0
 	note := func(kind, v string) {
 		total++
 		if len(v) < minLen {
@@ -63,6 +67,22 @@ func runC13(c *ctx) {
 		if seen[v] > 1 {
 			dups++
 			c.count("dup:" + kind)
+			return
+		}
+		if raw, err := base64.RawURLEncoding.DecodeString(v); err == nil && len(raw) >= 12 {
+			hit := false
+			for i := 0; i+12 <= len(raw); i++ {
+				w := string(raw[i : i+12])
+				if o, ok := windows[w]; ok && o != v {
+					hit = true
+				} else {
+					windows[w] = v
+				}
+			}
+			if hit {
+				overlaps++
+				c.count("overlap:" + kind)
+			}
 		}
 	}
 	for vi, v := range variants {
@@ -310,7 +330,7 @@ func runC13(c *ctx) {
 		s.close()
 		c.emit("burst13", "visits", 16*per, "failed", failed)
 	}
-	c.emit("fresh13", "total", total, "dups", dups, "minlen", minLen)
+	c.emit("fresh13", "total", total, "dups", dups, "minlen", minLen, "overlaps", overlaps)
 }
 
 func orDefault(v, d []string) []string {
